@@ -554,6 +554,12 @@ pub fn handle(st: &mut State, line: &str) -> String {
     let r = catch_unwind(AssertUnwindSafe(|| -> PResult<String> {
         match cmd.as_str() {
             "LIM" => Ok("OK".into()),
+            // the text of the built-in dictionary document, as the library itself holds it
+            "BUILTINXML" => {
+                let mut o = String::from("XML x");
+                hex(&mut o, diameter::dictionary::DEFAULT_DICT_XML.as_bytes());
+                Ok(o)
+            }
             "D" => {
                 let id = t.next()?.to_string();
                 let k = t.usize_dec()?;
